@@ -40,6 +40,15 @@ fn call_forms(n: &str) -> Vec<(&'static str, String, Ast)> {
         ("n x string,tail", format!("{} \"ab\" + \"c\"", n), Ast::Bin(crate::refmodel::ops::BinOp::Add, Box::new(call(n, s())), Box::new(lit(RV::Str("c".into()))))),
         ("n x ^ y", format!("{} 2 ^ 3", n), Ast::Bin(crate::refmodel::ops::BinOp::Exp, Box::new(call(n, lit(RV::Int(2)))), Box::new(lit(RV::Int(3))))),
         ("n(x) ^ y", format!("{}(2) ^ 3", n), Ast::Bin(crate::refmodel::ops::BinOp::Exp, Box::new(call(n, lit(RV::Int(2)))), Box::new(lit(RV::Int(3))))),
+        ("n<TAB>x", format!("{}\t1", n), call(n, one())),
+        ("n<LF>x", format!("{}\n1", n), call(n, one())),
+        ("n<VT>x", format!("{}\u{b}1", n), call(n, one())),
+        ("n<FF>(x)", format!("{}\u{c}(1)", n), call(n, one())),
+        ("n<CR>x", format!("{}\r\"ab\"", n), call(n, s())),
+        ("n<NBSP>x", format!("{}\u{a0}1", n), call(n, one())),
+        ("n<NEL>x", format!("{}\u{85}1", n), call(n, one())),
+        ("n<IDEOGRAPHIC SPACE>x", format!("{}\u{3000}1", n), call(n, one())),
+        ("n/**/x", format!("{}/**/1", n), call(n, one())),
         ("-n x", format!("-{} 1", n), Ast::Pre(crate::refmodel::ops::UnOp::Neg, Box::new(call(n, one())))),
         ("n x boolean", format!("{} true", n), call(n, lit(RV::Bool(true)))),
         ("n x float", format!("{} 2.5", n), call(n, lit(RV::Float(2.5)))),
@@ -335,7 +344,7 @@ pub fn run(cfg: &Cfg) -> Report {
     Report {
         property: ID,
         level: "model_checking",
-        rule: format!("for each of 66 names (49 builtins; foo, math::foo, str::nothing; 14 near-builtin names differing in letter case, namespace or one character): every history of length <= {depth} over {{disable builtins, enable, clone-and-continue, clone_from into a used context, clear_functions, clear_variables, define user function n, define failing user function n, bind variable n}} from an empty HashMapContext (contains the complete switch x user-function x variable x {{as built, clone, cleared}} matrix), plus EmptyContext and EmptyContextWithBuiltinFunctions; in every configuration reached, 20 call forms, each evaluated through `Node::eval_with_context` and (HashMapContext) through `Node::eval_with_context_mut` on a clone (`n(x)`, `n x` with int and string (also without a gap before the quote, followed by an operator, and under a prefix minus), `n()`, `n(x, y)`, `n(x, y, z)`, `typeof n x`, `n typeof x`, bare `n`, `n + 1`); oracle: reference resolution (user function first with the documented argument shape, recorded; else builtin table of C10 if enabled; else unknown function) . States = configurations, transitions = evaluations. Non-trivial = configurations reached by >= 2 operations"),
+        rule: format!("for each of 66 names (49 builtins; foo, math::foo, str::nothing; 14 near-builtin names differing in letter case, namespace or one character): every history of length <= {depth} over {{disable builtins, enable, clone-and-continue, clone_from into a used context, clear_functions, clear_variables, define user function n, define failing user function n, bind variable n}} from an empty HashMapContext (contains the complete switch x user-function x variable x {{as built, clone, cleared}} matrix), plus EmptyContext and EmptyContextWithBuiltinFunctions; in every configuration reached, 29 call forms, each evaluated through `Node::eval_with_context` and (HashMapContext) through `Node::eval_with_context_mut` on a clone (`n(x)`, `n x` with int and string (also without a gap before the quote, followed by an operator, and under a prefix minus), `n()`, `n(x, y)`, `n(x, y, z)`, `typeof n x`, `n typeof x`, bare `n`, `n + 1`); oracle: reference resolution (user function first with the documented argument shape, recorded; else builtin table of C10 if enabled; else unknown function) . States = configurations, transitions = evaluations. Non-trivial = configurations reached by >= 2 operations"),
         nontrivial_set: "counter:nontrivial-distinct",
         exhaustive: true,
         bound_completed: format!("histories of length {depth}"),
